@@ -467,6 +467,19 @@ def like_queries(ctx, strings):
                         c = conds[0]
                         ast_reqs.append({'op': 'like_ast', 'const': x if path == 'const' else None, 'before': before, 'after': after})
                         ast_meta.append(('sqlite', kind, path, x, {'pattern': conv_ast(c[2]), 'escape': len(c) == 4 and c[3] == ['VALUE', '!']}))
+        # plain equality with an inline constant / a bound parameter (Value.__str__ and Param through a real query)
+        for x in xs:
+            exp = sorted(i for i, nm, tg in data if nm == x)
+            for path in ('const', 'param'):
+                try:
+                    q = select('e for e in E if e.name == %s' % repr(x)) if path == 'const' else select(e for e in E if e.name == x)
+                    got = sorted(e.id for e in q)
+                except Exception as ex:
+                    got = 'raised %s: %s' % (type(ex).__name__, short(str(ex), 80))
+                ctx.case(['eq-query', path, x], kind='eq-query:' + path)
+                if got != exp:
+                    ctx.violation('e.name == x with x as a %s returns different rows than Python on real SQLite' % ('constant' if path == 'const' else 'parameter'),
+                                  {'path': path, 'x': x}, observed=got, expected=exp, key='eq:%s:%s' % (path, json.dumps(x)))
         # expression path with a column as the item
         for kind, (before, after, pyf, tmpl, mk, mkcol) in KINDS.items():
             exp = sorted(i for i, nm, tg in data if pyf(tg, nm))
